@@ -18,7 +18,8 @@ ROOT = os.path.dirname(os.path.dirname(os.path.abspath(__file__)))
 SPEC = os.path.join(ROOT, "spec")
 HARNESS = os.path.join(ROOT, "harness")
 WORK = os.path.join(ROOT, "work")
-EVID = os.path.join(ROOT, "evidence")
+# (bin/selftest runs the checks against deliberately broken trees: what they write must not replace the evidence of the real tree)
+EVID = os.environ.get("VERIF_EVIDENCE_DIR") or os.path.join(ROOT, "evidence")
 REPLAY = os.path.join(ROOT, "replay")
 # VERIF_VH: an alternative harness binary (bin/coverage-audit uses an instrumented build)
 VH = os.environ.get("VERIF_VH") or os.path.join(HARNESS, "target", "debug", "vh")
